@@ -32,7 +32,7 @@ Clause(r) == LET G == Effective(CfgOfRec(r), FALSE) IN
              ELSE IF Len(r.samples) # r.ns THEN "wrong-number-of-samples"
              ELSE LET j == CHOOSE i \in 1..r.ns : ~SampleOK(G, Obs(r, i)) IN SampleClause(G, Obs(r, j))
 Drift(r, G) == IF ~WellFounded(G)
-               THEN (IF r.diag # Diagnosis(G).d \/ Range(r.names) # Diagnosis(G).names THEN "drift:diagnosis" ELSE "")
+               THEN (IF r.diag # Diagnosis(G).d \/ (r.cmp_names /\ Range(r.names) # Diagnosis(G).names) THEN "drift:diagnosis" ELSE "")
                ELSE IF \E j \in 1..r.ns : DOMAIN Obs(r, j) # Required(G) THEN "drift:extra-names"
                ELSE IF ~r.has_order THEN ""
                ELSE IF \E j \in 1..r.ns : ~FullOrder(G, r.orders[j]) THEN "drift:order-not-a-behaviour"
